@@ -8,15 +8,27 @@ LEVEL = 'exploration'
 RULE = (
     'Generated 2-3 bus scenarios where each bus is first used either by an actor or from inside a handler of another '
     'bus, long handlers on one bus while events are queued on another, raising handlers (a failing parallel sibling must '
-    'not end the event early), serial and parallel buses, cold and warm. '
+    'not end the event early), event timeouts that cut handlers off which then need 0.05-0.5 s of asynchronous clean-up, '
+    'serial and parallel buses, cold and warm. '
     'Oracle (interval analysis over enter/exit/await records): whenever a handler starts, every other running handler '
     'is suspended in an await, or is on a parallel bus with a sibling of the same event suspended in an await, or is a '
     'handler of the same event on the same parallel bus. Non-trivial = some handler with a positive duration was '
     'running while another bus had a queued event; distinct by canonical JSON.'
 )
-ASSUMPTIONS = ['virtual time', 'no timeouts (cancelled handlers are not generated here)']
+ASSUMPTIONS = ['virtual time', 'a handler counts as running until its coroutine has finished, including asynchronous clean-up after a timeout cancellation']
 
-P = Profile(min_buses=2, max_buses=3, par=0.3, raises=0.2, raise_kinds=['VE', 'custom', 'ITO'], actor_ops=['disp', 'disp', 'burst', 'dispany', 'sleep', 'await', 'yield'], maxdepth=[2, 3], wild=0.15, fwd=0.25, warm=[False, False, True], modes=['await', 'later', 'ff', 'ff'], durs=[0.05, 0.1, 0.11, 0.25, 0.5, 1.0])
+from hypothesis import strategies as _st
+
+
+@_st.composite
+def _timeouts(draw):
+    # a third of the scenarios: handlers get cut off by event timeouts and need time to unwind - the lock must be held meanwhile
+    if draw(_st.integers(0, 2)) != 0:
+        return {}
+    return {str(t): draw(_st.sampled_from([0.13, 0.27, 0.41, 0.77])) for t in range(4) if draw(_st.booleans())}
+
+
+P = Profile(timeouts=_timeouts(), cleanup=0.3, min_buses=2, max_buses=3, par=0.3, raises=0.2, raise_kinds=['VE', 'custom', 'ITO'], actor_ops=['disp', 'disp', 'burst', 'dispany', 'sleep', 'await', 'yield'], maxdepth=[2, 3], wild=0.15, fwd=0.25, warm=[False, False, True], modes=['await', 'later', 'ff', 'ff'], durs=[0.05, 0.1, 0.11, 0.25, 0.5, 1.0])
 
 
 def budget(tier):
